@@ -150,7 +150,7 @@ def mk_handle(V, cell, mode="a", closed=False, name="h", toc=None):
     I, st = V.I, V.st
     cls = V.cls(UKV)
     path = Obj(I.ext_models["pathlib.Path"], {"s": st.fresh_sv(f"{name}_path", "str")}, tag="path")
-    st.ghost.setdefault("cells", {})[id(path)] = cell
+    st.ghost.setdefault("cells", {})[id(path.fields["s"])] = cell
     h = Obj(cls, {}, tag=name)
     h.fields.update({
         "path": path, "mode": mode,
@@ -172,7 +172,7 @@ def mk_handle(V, cell, mode="a", closed=False, name="h", toc=None):
 
 def install_open_hook(st):
     def hook(I, pathobj, mode):
-        cell = st.ghost.get("cells", {}).get(id(pathobj))
+        cell = st.ghost.get("cells", {}).get(id(pathobj.fields["s"]))
         if cell is None:
             raise Unsupported("open() of a path without ghost file cell")
         return I.open_binary(I, cell, mode)
@@ -237,6 +237,9 @@ def install_map_blocks_spec(I):
         st = L.st
         g = st.ghost["mb"]
         g["i"] = None
+        h = L.fr.locals["self"]
+        if isinstance(h.fields["_toc"], DictV):
+            h.fields["_toc"] = toc_from_dict(L.interp, h.fields["_toc"])
 
     def havoc(L):
         st = L.st
@@ -286,3 +289,92 @@ def install_map_blocks_spec(I):
     I.loop_specs[(f"{UKV}.map_blocks", 0)] = spec
     # the ghost counter i advances at the end of each iteration: hook through on_iteration_end
     spec.step = lambda L: L.st.ghost["mb"].__setitem__("i", L.st.ghost["mb"]["i"] + 1) if L.st.ghost["mb"]["mode"] == "chain" else None
+
+
+# ------------------------------------------------------------------------------ file + backend builders
+def file_state(V, cell, tail=None):
+    """F = valid header + well-formed chain (+ torn tail when tail == 'torn'); returns (H1,H2,B0,bof,ch)"""
+    st = V.st
+    F = bz(cell.fields["content"])
+    H1, H2, B0 = st.fresh("H1", BytesS), st.fresh("H2", BytesS), st.fresh("B0", BytesS)
+    V.assume(z3.And(blen(H2) < 65536, blen(B0) < 2 ** 32, blen(F) >= 32 + blen(H2) + blen(B0)))
+    V.assume(bslice(F, 0, 32) == FM.pack_FH(H1, blen(H2), blen(B0)))
+    V.assume(bslice(F, 32, blen(H2)) == H2)
+    V.assume(bslice(F, 32 + blen(H2), blen(B0)) == B0)
+    bof = 32 + blen(H2) + blen(B0)
+    ch = Chain(st, "c")
+    V.assume(ch.wf(F, bof))
+    if tail == "torn":
+        T = blen(F) - ch.P[ch.n]
+        hdr = bslice(F, ch.P[ch.n], 5)
+        V.assume(z3.And(T > 0, z3.Or(T < 5, ch.P[ch.n] + 5 + unp_B(hdr) + unp_I(hdr) > blen(F))))
+    else:
+        V.assume(ch.P[ch.n] == blen(F))
+    return H1, H2, B0, bof, ch
+
+
+def make_stale(V, h, F, ch, H2, B0, fresh=False):
+    """turn a handle built by mk_handle into a fresh one or one indexed on an earlier prefix of this file"""
+    I, st = V.I, V.st
+    if fresh:
+        h.fields["_toc"] = empty_toc(I)
+        h.fields["_eof"] = None
+        h.fields["_last"] = None
+        return z3.IntVal(0)
+    m = st.fresh("m", Int)
+    h.fields["h2"] = SV(H2, "bytes")
+    h.fields["b0"] = SV(B0, "bytes")
+    V.assume(idx_inv(h, F, ch, m, last=False))
+    V.assume(last_ok(h))
+    return m
+
+
+BACKEND = "molli.storage.backends:UkvCollectionBackend"
+BASE = "molli.storage.backends:CollectionBackendBase"
+
+
+def mk_backend(V, cell, pending=0, with_handle=True, readonly=False, name="b"):
+    """a UkvCollectionBackend in state idle with `pending` queued writes; optionally with a cached closed handle"""
+    I, st = V.I, V.st
+    cls = V.cls(BACKEND)
+    s = st.fresh_sv(f"{name}_path", "str")
+    path = Obj(I.ext_models["pathlib.Path"], {"s": s}, tag="path")
+    st.ghost.setdefault("cells", {})[id(s)] = cell
+    b = Obj(cls, {}, tag=name)
+    dq = I.call(I.ext_models["collections.deque"], [], {})
+    items = []
+    for i in range(pending):
+        kv = (V.sym(f"qk{i}", "str"), V.sym(f"qv{i}", "bytes"))
+        dq.fields["items"].append(kv)
+        items.append(kv)
+    keys = SymSet(st.fresh(f"{name}_keys", z3.ArraySort(z3.StringSort(), z3.BoolSort())), "str")
+    lock = Obj(I.LockCls, {"path": Opaque("obj:lockpath"), "held": None}, tag="rwlock")
+    b.fields.update({"_path": path, "_readonly": readonly, "_write_queue": dq, "_keys": keys, "_lock": lock,
+                     "_bufsize": V.sym(f"{name}_bufsize", "int"), "_usedmem": V.sym(f"{name}_usedmem", "int"),
+                     "_state": "idle"})
+    h = None
+    if with_handle:
+        h = mk_handle(V, cell, mode=V.choose(["a", "r"], "cached-mode"), closed=True, name="h")
+        h.fields["path"] = Obj(I.ext_models["pathlib.Path"], {"s": s}, tag="path")
+        b.fields["_ukvfile"] = h
+    return b, h, lock, items
+
+
+def install_update_keys_rule(I):
+    """{k.decode() for k in self._ukvfile.keys()}: pointwise rule.  Either some key is not valid utf-8
+    (UnicodeDecodeError) or the result is the set S with  s in S  <=>  encode(s) in toc."""
+    def rule(I_, n, fr):
+        st = I_.st
+        h = fr.locals["self"].fields["_ukvfile"]
+        t = h.fields["_toc"]
+        if not isinstance(t, SymMap):
+            t = toc_from_dict(I_, t)
+        k = z3.Const("k!uk", BytesS)
+        if not st.branch(st.fresh("all_keys_utf8", z3.BoolSort()), "all keys utf-8"):
+            I_.raise_py("UnicodeDecodeError", "invalid utf-8 key")
+        st.assume(z3.ForAll([k], z3.Implies(t.has[k], FM.b_is_utf8(k))))
+        S = st.fresh("keyset", z3.ArraySort(z3.StringSort(), z3.BoolSort()))
+        s = z3.Const("s!uk", z3.StringSort())
+        st.assume(z3.ForAll([s], S[s] == t.has[FM.s_encode(s)]))
+        return SymSet(S, "str")
+    return rule
